@@ -200,12 +200,19 @@ def check_erase(m, f, rule):
     calls = [c for c in f.all_insts() if c.op == 'call' and c.callee and not c.is_intrinsic()]
     finds = [c for c in calls if _map_finder(m, c.callee)]
     erases = [c for c in calls if c.callee == 'cstl_map_erase_iterator']
+    direct = False
+    if not erases:
+        # erase-by-iterator inlined by hand: unlink the tree node of the entry that was found, then free the entry
+        erases = [c for c in calls if c.callee in ('__cstl_rbtree_erase', '__cstl_bintree_erase')]
+        direct = True
     if len(finds) != 1 or len(erases) != 1:
         rule.undecided('cstl_map_erase', 'lookup / erase-by-iterator calls not recognised (%d/%d)' % (len(finds), len(erases)), floc(m, f))
         return
     fnd, er = finds[0], erases[0]
     if fnd.o[:2] != ['$0', '$1']:
         bad.add('the lookup is not for the caller\'s key in the caller\'s map')
+    if direct:
+        return _check_erase_direct(m, f, rule, fnd, er, calls, bad)
     it = strip_bitcasts(f, er.o[1])                       # the local iterator handed to erase-by-iterator
     # who fills that iterator: the lookup itself (iterator-level find) or an iterator_init from the node it returned
     fillers = [c for c in calls if c is not er and any(isinstance(o, str) and strip_bitcasts(f, o) == it for o in c.o)]
@@ -304,6 +311,60 @@ def check_erase(m, f, rule):
         rule.violation('cstl_map_erase', '; '.join(sorted(bad)[:4]), floc(m, f), {})
     else:
         rule.ok('cstl_map_erase', 'find -> (non-end) erase-by-iterator once -> 0, else -1; reported iterator detached (%d exit state(s))' % len(res.exits), floc(m, f))
+
+
+def _check_erase_direct(m, f, rule, fnd, er, calls, bad):
+    """cstl_map_erase that unlinks and frees the found entry itself"""
+    node = resolve_addr(f, er.o[1])
+    if strip_bitcasts(f, node.root) != fnd.ref:
+        bad.add('the tree node unlinked at %s is not the one of the entry the lookup found' % er.loc())
+    frees = [c for c in calls if c.callee == 'free' or (c.callee and _callee_frees(m, c.callee))]
+    if len(frees) != 1 or strip_bitcasts(f, frees[0].o[0]) != fnd.ref or not f.dominates(er, frees[0]):
+        bad.add('the entry found is not freed exactly once after it was unlinked')
+    pk = _k(fnd.ref)
+
+    def transfer(ins, st, ps):
+        n, out = st
+        if ins.op == 'call':
+            if ins.x.get('noreturn'):
+                return None
+            if ins is er:
+                if ps.knows(('ne', pk, 'null')) is not True:
+                    bad.add('the unlink runs even when the key was not found')
+                return (min(n + 1, 2), out)
+        if ins.op == 'store':
+            a = resolve_addr(f, ins.o[1])
+            if a.root == '$2' and a.fsteps[-1:] == (('cstl_map_iterator_t', '_'),):
+                if ps.knows(('ne', '$2', 'null')) is not True:
+                    bad.add('the out-parameter is written without a NULL check')
+                return (n, 'detached' if (ins.o[0] == 'null' or const_int(ins.o[0]) == 0) else 'attached')
+        if ins.op == 'load' and fnd.ref in (strip_bitcasts(f, resolve_addr(f, ins.o[0]).root),) and n >= 1 and any(f.dominates(fr, ins) for fr in frees):
+            bad.add('the entry is read at %s after it was freed' % ins.loc())
+        return st
+    try:
+        res = typestate.run(f, (0, 'none'), transfer, limit=50000)
+    except typestate.Limit as e:
+        rule.undecided('cstl_map_erase', str(e), floc(m, f))
+        return
+    for ret, ps in res.exits:
+        n, out = ps.auto
+        rv = const_int(typestate.value_of(f, ps, ret.o[0])) if ret.o else None
+        fd = ps.knows(('ne', pk, 'null'))
+        if fd is True and (n != 1 or rv != 0):
+            bad.add('a found entry is removed %d time(s) and reported with %s' % (n, rv))
+        elif fd is False and (n != 0 or rv != (1 << 32) - 1):
+            bad.add('an absent key is reported with %s (removals: %d)' % (rv, n))
+        elif fd is None:
+            bad.add('a path returns at %s without deciding whether the key was found' % ret.loc())
+        wants = ps.knows(('ne', '$2', 'null'))
+        if wants is True and out != 'detached':
+            bad.add('the reported iterator is not detached (`_` := NULL)' if out == 'attached' else 'the iterator is not reported although the caller asked for it')
+        if wants is None:
+            bad.add('a path returns at %s without looking at the out-parameter' % ret.loc())
+    if bad:
+        rule.violation('cstl_map_erase', '; '.join(sorted(bad)[:4]), floc(m, f), {})
+    else:
+        rule.ok('cstl_map_erase', 'find -> unlink + free of that entry once -> 0, else -1; reported iterator detached (%d exit state(s))' % len(res.exits), floc(m, f))
 
 
 def _reach(f, a, b):
